@@ -79,6 +79,10 @@ CAUGHT = {
     "C16-m7": ["C16 quick (SLR tables)"],
     "C16-m8": ["NOT CAUGHT and not claimed: the order of SyntaxError.tokens_ahead is not among the observables the property names (serialised tables, forest order, conflict reports, cached tables)"],
     "C16-m9": ["C16 quick (after the text of the conflict exception was hashed)"],
+    "C18-m7": ["C18 quick (after the grammar with a cell of two marked reductions of different lengths was added)"],
+    "C18-m8": ["C18 quick (after the marking written on the rule was added as a variant)"],
+    "C18-m9": ["C18 quick (after the trace check learnt that the decision shown must be one of the cell of from_state)"],
+    "C13-m7": ["C13 quick (after greedy repetitions with a separator were added)"], "C13-m8": ["C13 quick"],
     "C17-m1": ["C17 quick"], "C17-m2": ["C07 quick (scanner with consume_input=False); not C17 itself (its scope has no terminal priorities)"], "C17-m3": ["C17 quick"],
 }
 
